@@ -212,7 +212,7 @@ def write_file(path, data):
 
 # ---- reference metafile builder ------------------------------------------------
 
-def build_meta(files, plen, version, name="name", single=False, seed=0, trailing_pad=False, extra_info=None):
+def build_meta(files, plen, version, name="name", single=False, seed=0, trailing_pad=False, extra_info=None, aligned=False):
     """Metafile dict (bytes/ints/lists) for `files` = [(relpath_components, bytes)],
     written from the specs. version 1, 2 or 3 (hybrid)."""
     info = {"name": name, "piece length": plen}
@@ -227,7 +227,7 @@ def build_meta(files, plen, version, name="name", single=False, seed=0, trailing
             for i, (comps, data) in enumerate(files):
                 lst.append({"length": len(data), "path": list(comps)})
                 stream += data
-                if version == 3 and len(data) % plen and (i + 1 < len(files) or trailing_pad):
+                if (version == 3 or aligned) and len(data) % plen and (i + 1 < len(files) or trailing_pad):
                     pad = plen - len(data) % plen
                     lst.append({"attr": "p", "length": pad, "path": [".pad", str(pad)]})
                     stream += bytes(pad)
